@@ -30,6 +30,10 @@ CHECKS = {
             'every swap case over held singletons/pairs of F(3), every source x target permutation, every '
             'pairing, sifting to a fixed point (all level-visiting orders observed), 0/1-variable managers; '
             'BFS over reordering histories', 'DESIGN.md 2/C07'),
+    'C08': (MC[0], MC[1], 'every history of constructions, Function operators, traversals, duplicates, drops '
+            'in any order, collections, reorderings over dd.autoref up to the completed depth, dynamic '
+            'reordering off / firing naturally / forced at position k; exact counts vs live Function '
+            'registry; shutdown check after dropping all handles in every rotation', 'DESIGN.md 2/C08'),
     'C09': (MC[0], 'stateless model checking of the implementation: deviation-bounded enumeration of '
             'reordering-trigger schedules (0, 1, 2 deviations + natural thresholds) under a controlled '
             'trigger seam',
